@@ -189,9 +189,11 @@ def run(chk, repo, tier):
     common.tilt_slot_agreement(chk, repo, 'C10-e')
     # the same total tilt reached by one fit or by several gives the same shift: every recorded tilt adds its own
     # displacement to the shift it is handed, component by component
-    from .c04 import additive as _additive, folding as _folding
+    from .c04 import additive as _additive, folding as _folding, fit_tilt_rule as _fit_tilt_rule10
     _additive(chk, repo, 'C10-e')
     _folding(chk, repo, 'C10-e')
+    with chk.guard(['C10-e'], 'plane.Plane.fit_tilt'):
+        _fit_tilt_rule10(chk, repo, 'C10-e')
 
     # ---------------------------------------------------------------- C10-f
     common.mul_concat(chk, repo, 'C10-f')
